@@ -9,8 +9,10 @@ Streams (field "stream" of a case):
   occlusion    F-region score: Occlusion.explain against the model of C06 (exact), exact 0.0 where
                C05.Spec.occl_untouched says so, tie-tolerant max inside the region
   sobol        F-region score: low-resolution map (explainer.estimator applied to the recorded outputs): exactly 0.0
-               on the cells C05.Spec.inert_cell (Jansen), largest value at an active cell; final map: largest value in
-               the pixel blocks of the active cells (margin guard)
+               on the cells C05.Spec.inert_cell (Jansen; the four other estimators: 0 up to the rounding of their
+               cancelling formula), largest value at an active cell (Jansen: no guard, proved; others: one-sided
+               guard); final map: largest value in the pixel blocks of the active cells (margin guard);
+               corpus/C05: the inert-cell reproduction that exposed the Homma / Saltelli / Glen normalisations
   hsic         the same without the exact-zero clause (margin guards)
   lime/kshap   custom map_to_interpret_space (grid of segments not dividing H, W): the map is coef o mapping, the
                largest value lies in the region (margin guard); KernelShap on additive scores: segments that do not
@@ -80,6 +82,7 @@ PERTS = ["inpainting", "blurring", "amplitude"]
 
 GUARD_LOW = 0.25      # relative margin required on a sampled low-resolution map before a max clause is checked
 GUARD_RISE = 0.04
+FLOOR = 1e-3          # absolute floor of the scale used by the margin guards
 
 
 def note(kind, clause, checked):
@@ -664,8 +667,10 @@ def term_gsa_region(case, res):
         tol = core.cq(float(np.float32(1e-6 * max(1.0, scale))))
         clauses.append(f"small_onb {tol} (inert_cell {geo} R) low")
         note(s, "low:zero_up_to_rounding", True)
-    clear = outs is None or abs(ins - outs) >= GUARD_LOW * scale          # symmetric: a clear defeat is a violation
-    support = outs is None or ins - outs >= GUARD_LOW * scale             # one-sided: support evidence only
+    # values below FLOOR are rounding noise of the float32 pipeline (total-order indices are O(1); a degenerate design,
+    # e.g. Halton columns that are copies of each other at small n, gives every cell ~0): nothing to compare
+    clear = outs is None or abs(ins - outs) >= GUARD_LOW * max(scale, FLOOR)     # symmetric: a clear defeat is a violation
+    support = outs is None or ins - outs >= GUARD_LOW * max(scale, FLOOR)        # one-sided: support evidence only
     if s == "hsic":
         if clear:
             clauses.append(f"max_insideb (q 0 1) ({cn(g)} * {cn(g)}) {active} low")
@@ -709,7 +714,7 @@ def term_lime(case, res):
         sc = max(abs(ins), abs(outs or 0.0), 1e-30)
         # symmetric guard (a clear defeat is a violation); ties (an outside position sharing its segment with a
         # region position) are exact: same gathered value
-        ok = outs is None or abs(ins - outs) >= 0.1 * sc or abs(ins - outs) <= 1e-6 * sc
+        ok = outs is None or abs(ins - outs) >= 0.1 * max(sc, FLOOR) or abs(ins - outs) <= 1e-6 * sc
         if ok:
             clauses.append(f"max_insideb (q 0 1) {npos} R m")
         note(s, "max_inside", ok)
@@ -737,7 +742,7 @@ def term_lime_index(case, res):
 def term_rise(case, res):
     h, w, c = case["shape"]
     ins, outs = margin(res["map"], region_mask(case))
-    ok = outs is None or abs(ins - outs) >= GUARD_RISE * max(abs(ins), 1e-9)
+    ok = outs is None or abs(ins - outs) >= GUARD_RISE * max(abs(ins), abs(outs), FLOOR)
     note("rise", "max_inside", ok)
     if not ok:
         return None
